@@ -1,5 +1,43 @@
-(* C13 -- placeholder until Proofs/C13.v lands. *)
-From GV Require Import Base.Prelude Model.C13.
-Theorem C13_sel_lengths : forall f syms, length (sel_floating f syms) = length syms.
-Proof. intros. unfold sel_floating. apply map_length. Qed.
-Print Assumptions C13_sel_lengths.
+(* C13 -- property theorems only (one axis; the three axes are independent). *)
+From GV Require Import Base.Prelude Model.C01 Model.C13 Proofs.C13.
+
+(* after the correction the mean displacement of the reference species is zero in every frame *)
+Theorem C13_mean_corrected_zero : forall (T : nat) (mask : list bool) (disp : list (list Z)),
+  Forall (fun c : list Z => length c = T) disp -> length mask = length disp ->
+  0 < nsel mask -> vsum (selected mask (correct_all mask disp)) = repeat 0 T.
+Proof. exact mean_corrected_zero. Qed.
+Print Assumptions C13_mean_corrected_zero.
+
+(* the first frame is unchanged *)
+Theorem C13_first_frame_unchanged : forall (D : Z) (mask : list bool) (atoms : list (list Z)) (c : list Z),
+  In c (correct_all mask (map (disp_of D) atoms)) -> hd 0 c = 0.
+Proof. exact pipeline_first_frame. Qed.
+Print Assumptions C13_first_frame_unchanged.
+
+(* applying the correction again changes nothing (up to the integer scale n) *)
+Theorem C13_idempotent : forall (T : nat) (mask : list bool) (disp : list (list Z)),
+  Forall (fun c : list Z => length c = T) disp -> length mask = length disp ->
+  let c := correct_all mask disp in
+  correct_all mask c = map (map (fun x : Z => nsel mask * x)) c.
+Proof. exact idempotent. Qed.
+Print Assumptions C13_idempotent.
+
+(* an arbitrary rigid, time-dependent translation of all atoms yields the same corrected motion *)
+Theorem C13_rigid_translation_invariant : forall (T : nat) (mask : list bool) (disp : list (list Z)),
+  Forall (fun c : list Z => length c = T) disp -> length mask = length disp ->
+  forall rho : list Z, length rho = T ->
+  correct_all mask (map (fun d : list Z => zip_with Z.add d rho) disp) = correct_all mask disp.
+Proof. exact rigid_translation_invariant. Qed.
+Print Assumptions C13_rigid_translation_invariant.
+
+(* naming the floating species is equivalent to naming all other species as fixed *)
+Theorem C13_floating_equiv_fixed : forall floating syms all : list Z, (forall s : Z, In s syms -> In s all) ->
+  sel_floating floating syms = sel_fixed (filter (fun s : Z => negb (mem s floating)) all) syms.
+Proof. exact floating_equiv_fixed. Qed.
+Print Assumptions C13_floating_equiv_fixed.
+
+Theorem C13_zero_drift_unchanged : forall (T : nat) (mask : list bool) (disp : list (list Z)),
+  Forall (fun c : list Z => length c = T) disp -> drift_n mask disp = repeat 0 T ->
+  correct_all mask disp = map (map (fun x : Z => nsel mask * x)) disp.
+Proof. exact zero_drift_unchanged. Qed.
+Print Assumptions C13_zero_drift_unchanged.
